@@ -125,6 +125,8 @@ def check_tree_identities(bt, root, tag):
             if not machine.close(v, tot, scale):
                 raise Violation("%s: %s value %r != cash %r + children %r" % (tag, m.full_name, v, m.capital, tot - m.capital), signature="bt:value!=cash+children")
             for c in m.children.values():
+                if m.fixed_income:
+                    continue  # weights of a fixed-income strategy are fractions of notional (C17)
                 exp = c.value / v if abs(v) >= 1e-16 else 0.0
                 if not machine.close(c.weight, exp, 1.0, ab=1e-9):
                     raise Violation("%s: %s weight %r != %r" % (tag, c.full_name, c.weight, exp), signature="bt:weight")
@@ -149,6 +151,8 @@ def case_backtest(ctx, spec):
     holder = {}
     interp.Probe.registry[key] = cb
     try:
+        fam = spec.get("family")
+        spec = {k_: v for k_, v in spec.items() if k_ != "family"}
         interp.seed_rngs(spec)
         b = interp.mk_backtest(bt, spec)
         holder["root"] = b.strategy
@@ -190,12 +194,28 @@ def case_backtest(ctx, spec):
                 i = int(np.argmax(bad))
                 raise Violation("recorded rows: %s values[%d]=%r != pos*price*mult %r" % (m.full_name, i, v[i], exp[i]), signature="bt:rows-sec")
     nt = c10.n_trades(bt, b)
-    return {"nontrivial": nt > 0 and seen["n"] > 0, "labels": gen.spec_labels(spec)}
+    return {"nontrivial": nt > 0 and seen["n"] > 0, "labels": gen.spec_labels(spec) + (["family=" + fam] if fam else [])}
 
 
 @st.composite
 def probe_spec(draw):
-    spec = draw(gen.backtest_spec())
+    k = draw(st.integers(0, 7))
+    if k == 0:
+        # fixed-income books: coupons and holding costs swept into cash, hedge securities, notional schedules
+        from . import c17
+
+        spec = draw(c17.run_spec())
+        spec = {k_: v for k_, v in spec.items() if k_ not in ("kinds", "weights", "nested", "target_sub")}
+        spec["family"] = "fixed_income"
+    elif k == 1:
+        # leveraged market-value books, some of coupon-paying or hedge securities, some going bankrupt
+        from . import c16
+
+        spec = draw(c16.run_spec(kinds=("flat", "nested")))
+        spec = {k_: v for k_, v in spec.items() if k_ not in ("kind", "carry", "two_step", "ruinous_fee", "hedge_secs")}
+        spec["family"] = "leveraged"
+    else:
+        spec = draw(gen.backtest_spec())
     nodes = list(gen.walk_nodes(spec["tree"]))
     _, nd = nodes[draw(st.integers(0, len(nodes) - 1))]
     algos = nd["algos"]
